@@ -7,6 +7,7 @@ package transfer
 import (
 	"bytes"
 	"encoding/binary"
+	"errors"
 	"fmt"
 	"io"
 	"sort"
@@ -132,10 +133,10 @@ func decodeSenderControl(s *wireStream) (sw senderWire) {
 		at := ps.pos()
 		typ, msg, err := readControlMessage(ps)
 		if err != nil {
-			if err != io.EOF && err != io.ErrUnexpectedEOF {
+			if !errors.Is(err, io.EOF) && !errors.Is(err, io.ErrUnexpectedEOF) {
 				sw.err = fmt.Sprintf("control message at %d: %v", at, err)
 			}
-			return
+			return // a record cut off by the end of the run is not a record
 		}
 		step := s.stepAt(at)
 		switch typ {
@@ -166,7 +167,7 @@ func decodeRecvControl(s *wireStream) (rw recvWire) {
 		at := ps.pos()
 		typ, msg, err := readControlMessage(ps)
 		if err != nil {
-			if err != io.EOF && err != io.ErrUnexpectedEOF {
+			if !errors.Is(err, io.EOF) && !errors.Is(err, io.ErrUnexpectedEOF) {
 				rw.err = fmt.Sprintf("control message at %d: %v", at, err)
 			}
 			return
